@@ -112,10 +112,10 @@ def run_shard(engine, params, base, first, count, prop, out=None):
             agg["nontrivial_hashes"].append(r.get("hash"))
         agg["nontrivial_extra"] = agg.get("nontrivial_extra", 0) + r.get("nt_count", {}).get(prop, 0)
         for k, v in r.get("viol_count", {}).items():
-            if k.startswith(prop + "|"):
+            if prop == "ALL" or k.startswith(prop + "|"):
                 agg["viol_count"][k] += v
         for v in r.get("viol", []):
-            if v["property"] == prop:
+            if prop == "ALL" or v["property"] == prop:
                 key = f"{v['property']}|{v['check']}|{v['mechanism']}"
                 if agg["viol_keys"].get(key, 0) < 1 and len(agg["viol"]) < 60:
                     agg["viol_keys"][key] = agg["viol_keys"].get(key, 0) + 1
